@@ -30,7 +30,7 @@ CFG = dict(
           "nothing hangs) are evaluated on every history recorded from the REAL client connection + server.",
     props="Props/C02.v",
     theorems=["C02_prefix_c2h", "C02_prefix_h2c", "C02_handler_eof_after_all", "C02_handler_eof_complete", "C02_handler_eof_delivered",
-              "C02_caller_eof_after_all", "C02_caller_eof_complete",
+              "C02_caller_eof_after_all", "C02_caller_eof_complete", "C02_caller_msgs_complete", "C02_link_send_reach",
               "C02_link_send", "C02_link_send_arg", "C02_link_hsend", "C02_link_haccept", "C02_link_msg_frame",
               "C02_wire_c2s_prefix", "C02_wire_s2c_prefix", "C02_wire_complete", "C02_caller_prefix",
               "C02_handler_eof_sound", "C02_handler_recv_was_sent", "C02_caller_eof_sound", "C02_handler_order", "C02_caller_order"],
